@@ -5,6 +5,8 @@ sys.path.insert(0, "/verif")
 import verif
 
 LEVEL_TEXT = {
+ "C20": "Theorems (Lean 4) about the model of the repaired RegexSearcher (forward_step / next / next_back transcribed from api.rs), for any context satisfying CtxOK (find_from returns in-range boundary ranges and restarts consistently - what C06/C09 give): the forward steps never hit a panic site, terminate within 2*len+1 steps, tile [0,len) exactly on char boundaries, and their Match steps are exactly the find_iter matches (empty ones included); the backward steps are the reverse of the forward steps; for ANY interleaving of next()/next_back() the steps from the front followed by the reversed steps from the back are a prefix/suffix split of that one list, and after Done every call returns Done. The model of the previous code and its contract violations are kept as closed theorems (Proofs/Lemmas/Regressions.lean). Tied on nightly with the pattern feature: model vs real searcher on 5 interleavings per case, plus str::find/rfind/contains/matches/rmatches/split/rsplit against find_iter.",
+ "C14": "Theorems (Lean 4) about the models of Utf16Input / Ucs2Input: round trip on the UTF-16 encoding of scalar text forwards and backwards; on ARBITRARY u16 arrays (lone surrogates included) every decoder stays within the array and moves by 1 or 2 units, none exactly at the ends (no panic site exists: checked get); UCS-2 = UTF-16 when no unit is a surrogate; UTF-8 and UTF-16 boundaries of one text are in a strictly monotone bijection. The run-level agreement is decided per run against the real utf16 build: find_from_utf16 with offsets translated back vs find_from, find_from_ucs2 on BMP text, and arbitrary u16 slices from every start offset (no panic, ranges within the slice).",
  "C01": "The oracle is a Lean 4 transliteration of ECMA-262 (2025) pattern semantics over code points (RegressModel/Spec, written without reading the Rust sources, validated against V8 on 225 000 cases); theorems establish the laws the property's wording relies on (the returned match starts at the least offset >= start at which the anchored ordered search succeeds, with that attempt's end and captures; alternation/sequence associativity; fuel monotonicity). The full statement (implementation = specification for every pattern, haystack, start) is NOT a theorem: it is decided per run by a differential in which the harness generates pattern ASTs, prints them as a pattern string for the implementation and as an AST for the specification, and reports every difference with the concrete input. The executor models (Lean Bt/PikeVM on the dumped bytecode) are tied separately (C02).",
  "C04": "Theorems: (A) for the model of next_match_with_prefix_search any admissible prefix scan returns exactly what the plain scan returns (match, captures and next_start), for an arbitrary matcher; (B) the modelled byte scans return the first index passing the byte test and skip only failing indices; (C) every code point of an interval has its UTF-8 lead byte in the computed first-byte set, and that set is exact. Soundness of the predicate derived from the IR (start_pred_sound) is in the IR-semantics development (Proofs/C04Sem when present); meanwhile it is decided per run by the differential 'with predicate vs StartPredicate::Arbitrary vs PikeVM' on a generator biased towards prefix-relevant first terms, plus the executor tie (Lean backtracker incl. prefilter model on dumped bytecode).",
  "C10": "The property quantifies over a finite domain (pairs of code points x {unicode, legacy}); it is closed in the Lean kernel over FOLDS / TO_UPPERCASE regenerated from src/unicodetables.rs on every run: rows well-formed, fold idempotent, fold classes = Unicode 17 simple-case-folding classes (ICU 78.2 snapshot), unfold_char / add_icase_code_points (compile-time expansion, incl. the stride walk) = match-time folding, class size <= 4, the non-ASCII word-character table, ASCII agreement. The legacy half is proved FALSE with the exact set D of 29 code points where uppercase differs from ES legacy Canonicalize (known finding F8). The engine-level relation is swept for every code point with a non-trivial class (literal, [c], [^c], (c)\\1, \\w, \\b in i / iu / iv).",
@@ -17,6 +19,8 @@ LEVEL_TEXT = {
  "C18": "Theorems about the model of escape (the 14-character list is regenerated from api.rs by the translator): only backslashes are inserted, every syntax character is escaped. The behavioural half (escape(s) compiles under all 12 flag sets and finds exactly the occurrences of s) is an exhaustive enumeration of all short strings over the syntax alphabet against substring search - a bounded test, stated as such.",
 }
 NOTES = {
+ "C20": "Needs cargo +nightly (feature pattern); CtxOK is a hypothesis on find_from (discharged for the real engine by C06/C09, here per case by the data). Unsafe-trait obligations of std's Searcher beyond tiling/boundaries are not modelled.",
+ "C14": "Proved at decoder level only; the executor run over u16 input is tied by differential (the Lean executor models currently take UTF-8/ASCII input kinds). The utf16 build also changes the emitter (no byte lowering, no prefilter): covered by C15's replay.",
  "C01": "Trusted: the Lean ES specification (Spec/*.lean; V8 as referee where V8 implements the feature; 4 classes of V8 11.3 v-mode defects adjudicated by hand), the AST printer of the harness. Without u/v the specification works on code points, not UTF-16 code units (as the property says). Bounded: the differential explores generated cases only.",
  "C04": "EnvOK / PrefilterAdmissible are hypotheses of (A); admissibility of the real predicate is the part not yet proved (tied by differential). memchr/memmem are modelled as first-occurrence scans.",
  "C10": "Trusted: ICU 78.2 case folding as observed through V8 (oracle/casefold17.json) and the translator. Open known finding F8 (legacy i): identified by the class predicate in known_findings.json; u/v modes are fully proved.",
